@@ -185,6 +185,7 @@ class Summaries:
         # parameters a static helper releases on every path (it takes over the
         # caller's reference, like a stealing API)
         self.consumes = {}
+        self.handback = {}
         for name, f in fs.items():
             g = ccfg(f)
             idx = set()
@@ -198,8 +199,31 @@ class Summaries:
                 reb = [n for n in g.nodes if pname in c_assigned(n)]
                 if not reb and g.must_pass_after(g.entry, rel):
                     idx.add(k)
+                elif not reb and 'PyObject' in f.ret:
+                    # release-or-hand-back: on every exit the parameter was
+                    # either released or is itself the (non-NULL) value
+                    # returned - the caller's reference is used up either way
+                    ok = True
+                    some_rel = False
+                    rets_ = returns(g)
+                    for r in rets_:
+                        v = r.e.a[0]
+                        if v is not None and v.k == 'var' and v.a[0] == pname:
+                            continue
+                        if g.must_pass_after(g.entry, rel, target=r):
+                            some_rel = True
+                            continue
+                        ok = False
+                        break
+                    if ok and some_rel and rets_:
+                        idx.add(k)
+                        self.handback.setdefault(name, set()).add(pname)
             if idx:
                 self.consumes[name] = idx
+        if self.handback:
+            for _ in range(2):
+                for name, f in fs.items():
+                    self.returns[name] = self._ret_kind(f)
 
     def may_run_python(self, callee, strict=True):
         """strict: DECREF-class calls count (destructors)."""
@@ -251,8 +275,10 @@ class Summaries:
                     kinds.add('new')
                     continue
                 if d is g.entry:
-                    # parameter returned: new iff INCREF'd on the way
-                    kinds.add('new' if g.must_pass_after(g.entry, inc, target=r)
+                    # parameter returned: new iff INCREF'd on the way - or the
+                    # caller's own reference is handed back (release-or-return)
+                    kinds.add('new' if (g.must_pass_after(g.entry, inc, target=r) or
+                                        var in getattr(self, 'handback', {}).get(f.name, ()))
                               else 'borrowed')
                     continue
                 if val is None:
